@@ -1,7 +1,9 @@
-(* REGENERATED from src/mxlpy/meta/codegen_model.py and sympy_tools.py by harness/c07.py; do not edit.
+(* REGENERATED from src/mxlpy/meta/codegen_model.py, sympy_tools.py and source_tools.py by harness/c07.py; do not edit.
    An unrecognised shape yields a *Unknown constructor / false, which breaks C07_facts_pinned. *)
-From Codegen Require Import Codegen.
+From Codegen Require Import Codegen CallArity.
 Definition gen_codegen_facts : facts :=
   mkFacts (mkLF AsgName DsList RetBracket false) (mkLF AsgName DsList RetBracket false)
           (mkLF AsgName DsList RetBracket true) (mkLF AsgLitK DsSplat RetBare true)
           OrdDep true true true true IaFrozen UtZero.
+(* the argument binding of src/mxlpy/meta/source_tools.py::fn_to_sympy *)
+Definition gen_bind_fact : bind_kind := BkStrictNonEmpty.
